@@ -2936,6 +2936,93 @@ async fn secure(p: &[&str]) -> String {
         Err(e) => e,
       }
     }
+    // `secure <mech> backlog <count> <size> hb=<ms>`: the server has heartbeats on and stops reading for a while; the
+    // client streams on, so that its session holds a backlog of sealed records whenever a PING arrives and is answered.
+    // Nobody tampers: every message must arrive, in order, and the connection must never break.
+    "backlog" => {
+      let count: usize = p[3].parse().unwrap();
+      let size: usize = p[4].parse().unwrap();
+      let hb: i32 = p.get(5).and_then(|x| x.strip_prefix("hb=")).and_then(|x| x.parse().ok()).unwrap_or(100);
+      let ctx = Context::new().expect("ctx");
+      let server = match sec_socket(&ctx, SocketType::Pull, &mech, true, &keys, hb).await {
+        Ok(s) => s,
+        Err(e) => return format!("setup-error server {}", err_class(&e)),
+      };
+      let client = match sec_socket(&ctx, SocketType::Push, &mech, false, &keys, 0).await {
+        Ok(s) => s,
+        Err(e) => return format!("setup-error client {}", err_class(&e)),
+      };
+      let _ = set_i32(&client, o::SNDTIMEO, 20000).await;
+      let _ = set_i32(&server, o::RCVTIMEO, 3000).await;
+      // (a reader that pauses longer than the heartbeat timeout loses the connection by design: the PONG waits behind the
+      // data the full receiver no longer reads; the timeout is therefore generous here)
+      let _ = set_i32(&server, o::HEARTBEAT_TIMEOUT, 15000).await;
+      let mon = match server.monitor_default().await {
+        Ok(m) => m,
+        Err(_) => return "setup-error monitor".into(),
+      };
+      if server.bind("tcp://127.0.0.1:0").await.is_err() {
+        return "setup-error bind".into();
+      }
+      let ep = last_endpoint(&server).await;
+      if client.connect(&ep).await.is_err() {
+        return "setup-error connect".into();
+      }
+      let c2 = client.clone();
+      let sender = tokio::spawn(async move {
+        for i in 0..count {
+          let mut b = vec![(i % 251) as u8; size.max(8)];
+          b[0..4].copy_from_slice(&(i as u32).to_be_bytes());
+          if c2.send(Msg::from_vec(b)).await.is_err() {
+            return i;
+          }
+        }
+        count
+      });
+      // first message: the handshake is over; then the reader pauses for several heartbeat intervals, twice
+      let mut got: Vec<u32> = Vec::new();
+      let mut broken = false;
+      let mut pauses = 0;
+      while got.len() < count {
+        if (got.len() == 1 || got.len() == count / 2) && pauses < 2 {
+          pauses += 1;
+          tokio::time::sleep(Duration::from_millis(6 * hb as u64 + 200)).await;
+        }
+        match server.recv().await {
+          Ok(m) => {
+            let d = m.data().unwrap_or(&[]);
+            if d.len() != size.max(8) {
+              return format!("ORACLE-FAIL key=secure-undecodable a message of {} bytes arrived, every message sent has {}", d.len(), size.max(8));
+            }
+            got.push(u32::from_be_bytes([d[0], d[1], d[2], d[3]]));
+          }
+          Err(_) => break,
+        }
+        while let Ok(Ok(ev)) = tokio::time::timeout(Duration::from_millis(0), mon.recv()).await {
+          if matches!(ev, SocketEvent::Disconnected { .. } | SocketEvent::HandshakeFailed { .. }) {
+            broken = true;
+          }
+        }
+      }
+      let sent = tokio::time::timeout(Duration::from_secs(25), sender).await.ok().and_then(|r| r.ok()).unwrap_or(0);
+      let _ = tokio::time::timeout(Duration::from_secs(3), client.close()).await;
+      let _ = tokio::time::timeout(Duration::from_secs(3), server.close()).await;
+      let _ = tokio::time::timeout(Duration::from_secs(12), ctx.term()).await;
+      let in_order = got.iter().enumerate().all(|(i, v)| *v as usize == i);
+      if broken || !in_order || got.len() != count || sent != count {
+        let first_gap = got.iter().enumerate().find(|(i, v)| **v as usize != *i).map(|(i, v)| format!("expected #{}, received #{}", i, v));
+        return format!(
+          "ORACLE-FAIL key=secure-undecodable {} of {} messages arrived ({} accepted by the sender){}{}: nobody touched the wire (heartbeats every {} ms while the sender had a backlog)",
+          got.len(),
+          count,
+          sent,
+          if broken { ", the connection broke" } else { "" },
+          first_gap.map(|g| format!(", {}", g)).unwrap_or_default(),
+          hb
+        );
+      }
+      "secure=ok".into()
+    }
     "tamper" => {
       let op = p[3];
       match secure_session(&mech, &keys, &[40, 40, 40, 40, 40, 40], 0, op).await {
